@@ -273,6 +273,40 @@ def check_attr_order(st: Stats) -> None:
                         st.violate(f"C03|OperationInfo|{where}-order|hash", "equal OperationInfo with different hashes", wit)
 
 
+def check_attr_values(st: Stats) -> None:
+    """every ordered pair of ops that differ (or not) only in ONE attribute / property VALUE, over a pool that contains values
+    whose Python hashes collide (hash(-1) == hash(-2) in CPython; 0.0 / -0.0; True / 1) — equality must not be decided by hashes"""
+    import itertools as it
+
+    from xdsl.dialects.builtin import ArrayAttr, FloatAttr, IntAttr, IntegerAttr, StringAttr, f32, i1, i32, i64
+    from xdsl.dialects.test import TestOp
+    from xdsl.transforms.common_subexpression_elimination import OperationInfo
+
+    pool = [IntegerAttr(-1, i64), IntegerAttr(-2, i64), IntegerAttr(-1, i32), IntegerAttr(1, i1), IntegerAttr(1, i32), IntAttr(-1), IntAttr(-2),
+            FloatAttr(0.0, f32), FloatAttr(-0.0, f32), StringAttr("-1"), ArrayAttr([IntAttr(-1)]), ArrayAttr([IntAttr(-2)])]
+    for (i, a), (j, b) in it.product(enumerate(pool), repeat=2):
+        for where, key in (("attributes", "tag"), ("properties", "prop1")):
+            o1 = TestOp(result_types=[i32], **{where: {key: a}})
+            o2 = TestOp(result_types=[i32], **{where: {key: b}})
+            st.executions += 1
+            st.evaluations += 3
+            ref = canon([o1]) == canon([o2])
+            if ref != (i == j):
+                st.violate("C03|harness|attr-value-pool-not-distinct", "canonical form does not separate the value pool", {"i": i, "j": j})
+                continue
+            wit = {"where": where, "value1": str(a), "value2": str(b)}
+            g = (o1.is_structurally_equivalent(o2), o2.is_structurally_equivalent(o1))
+            e = (OperationInfo(o1) == OperationInfo(o2), OperationInfo(o2) == OperationInfo(o1))
+            if g != (ref, ref):
+                st.violate(f"C03|operation|{where}-value|{'false-negative' if ref else 'false-positive'}",
+                           f"is_structurally_equivalent says {g} for ops whose {where} value is {'the same' if ref else 'different'}", wit)
+            if e != (ref, ref):
+                st.violate(f"C03|OperationInfo|{where}-value|{'false-negative' if ref else 'false-positive'}",
+                           f"OperationInfo equality says {e} for ops whose {where} value is {'the same' if ref else 'different'}", wit)
+            elif ref and hash(OperationInfo(o1)) != hash(OperationInfo(o2)):
+                st.violate(f"C03|OperationInfo|{where}-value|hash", "equal OperationInfo with different hashes", wit)
+
+
 def check_region_shapes(st: Stats) -> None:
     """every ordered pair of ops that differ (or not) only in the SHAPE of their regions — no region, a region without
     blocks, an empty block, a block with ops, two blocks, block arguments — for is_structurally_equivalent and OperationInfo"""
@@ -366,6 +400,7 @@ def run(ctx):
         cross = dict(max_blocks=2, max_ops=2, max_args=1, depth=1)
     check_attr_order(ctx.stats)
     check_region_shapes(ctx.stats)
+    check_attr_values(ctx.stats)
     n = 64
     tasks = [(sp, i, n, ctx.seed) for sp in spaces for i in range(n)]
     for _, st in pmap(_shard, tasks):
